@@ -112,11 +112,12 @@ def jobs(tier):
         for dw in (8, 32):
             A(lambda k=k, dw=dw: L.EvInst([k], dw))
     # ---- two sources: every clear mask x every enable mask x every trigger vector
-    #      quick: the 10 unordered mixes without read letters (bus width alternates) + one mix with reads;
+    #      quick: four mixes covering every kind in both bit positions (three without read letters, one complete);
     #      thorough: all 16 ordered mixes with reads, both bus widths
     if quick:
-        for idx, (a, b) in enumerate(itertools.combinations_with_replacement(K, 2)):
-            A(lambda a=a, b=b, dw=(8, 32)[idx % 2]: L.EvInst([a, b], dw, reads=False, extra=False, tag="/no reads"))
+        A(lambda: L.EvInst(["p", "r"], 8, reads=False, extra=False, tag="/no reads"))
+        A(lambda: L.EvInst(["f", "l"], 32, reads=False, extra=False, tag="/no reads"))
+        A(lambda: L.EvInst(["r", "f"], 32, reads=False, extra=False, en_masks=[0, 3], tag="/no reads, enable all|none"))
         A(lambda: L.EvInst(["l", "p"], 8))
     else:
         for a, b in itertools.product(K, K):
@@ -124,7 +125,7 @@ def jobs(tier):
                 A(lambda a=a, b=b, dw=dw: L.EvInst([a, b], dw))
     # ---- three sources (clear masks none / one-hot / all, enable none / all, no read letters): thorough only
     if not quick:
-        for idx, m in enumerate(["prf", "lpr", "flp", "rlf", "ppr", "rrr", "fpl", "lfl", "rfp", "plp", "frl", "lrp"]):
+        for idx, m in enumerate(["prf", "lpr", "flp", "rlf", "plp", "lfl", "rpl", "fll"]):
             A(lambda m=m, dw=(8, 32)[idx % 2]: L.EvInst(list(m), dw, masks="onehot", reads=False, extra=False,
                                                         tag="/onehot"))
     # ---- more sources than bus bits: `pending`/`enable`/`status` span several words (1- and 2-bit CSR buses);
